@@ -4,6 +4,8 @@ pub mod linearizer;
 pub mod standard_linear_model;
 pub mod standardizer;
 
+#[cfg(rooc_verif)]
+pub use bounds::verif_hooks as bounds_verif_hooks;
 pub use linear_model::*;
 pub use linearizer::*;
 pub use standard_linear_model::*;
